@@ -126,6 +126,34 @@ def run(ctx, out):
         for _ in range(rng.randint(1, 3)):
             gen.shape()
         cases.append(("core", gen.g, graph_from_triples(data)))
+    # blank nodes of the data graph that carry the same labels as blank nodes of the shapes graph (as JSON-LD / hext documents and
+    # graphs built with explicit ids do): both kinds reach the report, each must come with its own description
+    shared = []
+    for label, sg, dg in cases:
+        sb = sorted(set(x for x in sg.subjects(SH.path, None) if isinstance(x, BNode)) | set(x for x in sg.objects(None, SH.path) if isinstance(x, BNode)), key=str)
+        db = sorted(set(x for t in dg for x in (t[0], t[2]) if isinstance(x, BNode)), key=str)
+        if sb and db and len(shared) < (12 if quick else 150):
+            m = {d: sb[k % len(sb)] for k, d in enumerate(db)}
+            h = Graph()
+            for a, b, c in dg:
+                h.add((m.get(a, a), b, m.get(c, c)))
+            shared.append(("shared-labels:" + label, sg, h))
+    cases += shared
+    # directed: the anonymous property shape and a blank value / focus node of the data graph carry the same label
+    from rdflib.namespace import RDF as _RDF
+    for k in range(6 if quick else 30):
+        lab = "b%d" % k
+        sgd, dgd = Graph(), Graph()
+        S, ps = EX["DS%d" % k], BNode(lab)
+        sgd.add((S, _RDF.type, SH.NodeShape)); sgd.add((S, SH.targetSubjectsOf, EX.p0)); sgd.add((S, SH.property, ps))
+        sgd.add((ps, SH.path, EX.p0)); sgd.add((ps, SH.nodeKind, SH.IRI))
+        if k % 2:
+            sgd.add((S, SH.nodeKind, SH.IRI))           # the blank focus node itself is reported too
+        v = BNode(lab)
+        dgd.add((EX.n0 if k % 3 else BNode("other"), EX.p0, v)); dgd.add((v, EX.p1, Literal("described %d" % k))); dgd.add((v, EX.p2, EX.n1))
+        if k % 2:
+            dgd.add((v, EX.p0, Literal(k)))
+        cases.append(("shared-labels:directed", sgd, dgd))
     combos = list(itertools.product((False, True), repeat=5))   # advanced, abort, infos, warnings, sparql
     out.rule = ("Core + composition generators x all 32 combinations of (advanced, abort_on_first, allow_infos, allow_warnings, sparql_mode) "
                 "[sampled 10 per case in quick, all in thorough] + inference {none, rdfs} x {Graph, Dataset}; non-trivial = distinct "
